@@ -31,7 +31,7 @@ CHECKS = {
     "C10": dict(engines=["c10"], level="exploration",
                 quick=dict(batches=16, runs=300, timeout=900),
                 thorough=dict(batches=64, runs=1000, timeout=3000)),
-    "C11": dict(engines=["c11"], level="exploration",
+    "C11": dict(engines=["c11", "c11cli"], level="exploration", race_engines=["c11"],
                 quick=dict(batches=16, runs=200, race_batches=16, race_runs=40, timeout=900),
                 thorough=dict(batches=64, runs=500, race_batches=32, race_runs=120, timeout=3000)),
 }
